@@ -51,10 +51,14 @@ deriving Repr
 /-- probe types of harness/h_gcmark.c that declare their own Mark instance (a user-defined container) -/
 def userMarkTypes : List String := ["ProbeM"]
 
-/-- the collector as it is in /repo now -/
+/-- the collector as it is in /repo now.  A type's `Mark` instance enters the model only if the translator found that
+    it hands EVERY occupied element to the callback: no `return` before or inside its loop other than the modelled
+    ones, the loop bound the modelled one (all items / all slots / up to Terminal), and no struct member read that the
+    model does not know (a cached flag such as "this container holds no references" would be such a member).  A Mark
+    function that can return early is treated as tracing nothing — `C01_tables` then fails for that type. -/
 def Cfg.current : Cfg :=
   { leaf := CelloGen.GcMark.gcLeafTypes
-    mark := CelloGen.GcMark.markTypes ++ userMarkTypes
+    mark := CelloGen.GcMark.markTypes.filter CelloGen.GcMark.markVisitsAll ++ userMarkTypes
     guarded := CelloGen.GcMark.callbackGuarded
     tlsCallback := CelloGen.GcMark.tlsViaCallback
     scanInclusive := CelloGen.GcMark.scanInclusive }
@@ -235,6 +239,58 @@ def collect (c : Cfg) (h : Heap) (thread : Obj) (stack : List Word) : Heap × Li
 
 end dfs
 
+
+/-! ### typed containers: the element / key / value types of a container are part of its CURRENT value
+
+  `Array_Alloc`, `List_Alloc`, `Table_Set_Move`, `Tree_Node_Alloc` build every embedded element with
+  `header_init(…, <the container's type field NOW>, AllocData)`: an element carries the element type the container had
+  when the element was created, and `X_Assign` (which re-defines `a->type` / `t->ktype, t->vtype`) first destroys every
+  element and then re-creates all of them with the new types.  So at every moment all embedded elements of a container
+  carry its current element types, and what `fields` yields for the container depends on those types (leaf or not). -/
+
+/-- the embedded elements of an Array / List whose current element type is `ety`, one payload (the words of the
+    element's struct) per element -/
+def seqElems (ety : String) (vals : List (List Word)) : List Obj := vals.map (Obj.raw ety)
+
+/-- the embedded keys and values of a Table / Tree whose current key type is `kty` and value type `vty` -/
+def mapElems (kty vty : String) (kvs : List (List Word × List Word)) : List Obj :=
+  kvs.flatMap fun kv => [Obj.raw kty kv.1, Obj.raw vty kv.2]
+
+/-- types with a `Pointer` instance that has `deref` (src/Pointer.c): `Ref_Assign(self, obj)` stores `deref(obj)` for
+    these and `obj` itself for every other type -/
+def pointerTypes : List String := ["Ref", "Box"]
+
+/-- what `Ref_Assign(elem, item)` stores when `item` is the word `w` (a stored pointer of a heap Tuple) -/
+def Heap.derefIfPtr (h : Heap) (w : Word) : Word :=
+  match h.lookup w with
+  | some e =>
+    match e.obj with
+    | .raw ty (v :: _) => if pointerTypes.contains ty then v else w
+    | _ => w
+  | none => w
+
+/-- **`assign(dst, src)` between containers** (`Array_Assign`, `List_Assign`, `Table_Assign`, `Tree_Assign`,
+    `Tuple_Assign`): the target is cleared, TAKES OVER THE SOURCE'S ELEMENT / KEY / VALUE TYPES and is filled with
+    copies of the source's elements (an embedded element is copied by `assign(elem, srcElem)`: same type, same words).
+    Sequence from sequence (Array, List), map from map (Table, Tree), Tuple from Tuple (the stored pointers), and
+    Array / List from a heap Tuple (`iter_type` is not declared by Tuple: the element type becomes Ref, each element is
+    `Ref_Assign`ed from the stored pointer).  The type of the target object itself never changes. -/
+def Obj.assignFrom (h : Heap) (dst src : Obj) : Obj :=
+  match dst, src with
+  | .cont ty _, .cont _ es => .cont ty es
+  | .cont ty _, .tup _ items => .cont ty (seqElems "Ref" (items.map fun w => [h.derefIfPtr w]))
+  | .tup ty _, .tup _ items => .tup ty items
+  | d, _ => d
+
+/-- `resize(obj, 0)` / `X_Clear`: every element destroyed, the types stay; also what `alloc` hands to `assign` in `copy` -/
+def Obj.cleared : Obj → Obj
+  | .cont ty _ => .cont ty []
+  | .tup ty _ => .tup ty []
+  | o => o
+
+/-- `copy(src)` = `assign(alloc(type_of(src)), src)` (none of the containers declares `Copy`) -/
+def Obj.copyOf (h : Heap) (src : Obj) : Obj := src.cleared.assignFrom h src
+
 /-! ### histories: the mutator's operations between collections -/
 
 /-- `alloc` → `GC_Set`: a new entry; the pointer bounds widen; an address that is already registered is left alone
@@ -286,6 +342,9 @@ inductive HOp where
   | alloc (a : Addr) (e : Entry)
   | write (a : Addr) (o : Obj)
   | del (a : Addr)
+  | assign (a b : Addr)            -- assign(a, b) between registered containers: a is re-typed with b's element types
+  | copyTo (a b : Addr)            -- a = copy(b): a fresh entry of b's type, then assign
+  | clear (a : Addr)               -- resize(a, 0)
   | setThread (t : Obj)            -- set / rem on current(Thread)
   | setStack (ws : List Word)      -- whatever the stack and registers hold at the next collection
   | collect                        -- threshold-triggered or forced: GC_Mark; GC_Sweep
@@ -304,6 +363,18 @@ def HState.step {σ : Type} (S : MarkSet σ) (c : Cfg) (s : HState) : HOp → HS
   | .alloc a e => ({ s with heap := s.heap.register a e }, none)
   | .write a o => ({ s with heap := s.heap.write a o }, none)
   | .del a => ({ s with heap := s.heap.remove a }, none)
+  | .assign a b =>
+    match s.heap.lookup a, s.heap.lookup b with
+    | some ea, some eb => ({ s with heap := s.heap.write a (ea.obj.assignFrom s.heap eb.obj) }, none)
+    | _, _ => (s, none)
+  | .copyTo a b =>
+    match s.heap.lookup b with
+    | some eb => ({ s with heap := s.heap.register a ⟨eb.obj.copyOf s.heap, false⟩ }, none)
+    | none => (s, none)
+  | .clear a =>
+    match s.heap.lookup a with
+    | some ea => ({ s with heap := s.heap.write a ea.obj.cleared }, none)
+    | none => (s, none)
   | .setThread t => ({ s with thread := t }, none)
   | .setStack ws => ({ s with stack := ws }, none)
   | .collect =>
@@ -320,6 +391,7 @@ def HState.run {σ : Type} (S : MarkSet σ) (c : Cfg) : List HOp → HState → 
 /-- what `alloc` returns is 8-aligned (calloc + a header of whole words) -/
 def HOp.ok : HOp → Prop
   | .alloc a _ => a % 8 = 0
+  | .copyTo a _ => a % 8 = 0
   | _ => True
 
 /-! ### specification: graph reachability -/
